@@ -77,7 +77,9 @@ class DBusMessage :
         Encodes the message into binary format. The resulting binary message is
         stored in C{self.rawMessage}
         """
-        flags = 0
+        # bits this implementation does not interpret travel on with a message
+        # that came off the wire
+        flags = getattr(self, '_wireFlags', 0) & ~0x3
 
         if not self.expectReply:
             flags |= 0x1
@@ -409,6 +411,7 @@ def parseMessage(rawMessage, oobFDs):
 
     m.expectReply = not (flags & 0x1)
     m.autoStart = not (flags & 0x2)
+    m._wireFlags = flags
 
     for code, v in hval[6]:
         try:
